@@ -92,13 +92,17 @@ def run(prop, tier, seed=0, extra=None):
     else: findings_checks = []
     known = common.load_known()
     violations = {}; known_hits = {}
-    rec_index = {}
+    rec_index = {}; cmp_index = {}
     for (tn, ho), r in results.items():
         if r.get('status') != 'ok': continue
         for pi, p in enumerate(r['paths']):
             for ri, rec in enumerate(p['records']):
-                if (tn, ho, pi, ri) in bad_records: continue
-                rec_index[(tn, ho, pi, tuple(rec['pattern']))] = rec
+                if (tn, ho, pi, ri) in bad_records:
+                    # the native run of these names is a real run all the same: it takes part in the cross-record comparisons (C11, C12)
+                    n = nat.get('%s|%s|%d|%d' % (tn, ho, pi, ri))
+                    if n and 'steps' in n and len(n['steps']) == len(rec['steps']): cmp_index[(tn, ho, pi, tuple(rec['pattern']))] = dict(n, pattern=rec['pattern'], values=rec['values'], native_only=True)
+                    continue
+                rec_index[(tn, ho, pi, tuple(rec['pattern']))] = rec; cmp_index[(tn, ho, pi, tuple(rec['pattern']))] = rec
     def report(f, key, text):
         km = common.known_match(known, prop, key)
         if km: known_hits.setdefault(key, 'key=%s %s' % (key, km['text'])); return
@@ -132,7 +136,7 @@ def run(prop, tier, seed=0, extra=None):
     if prop == 'C11':
         # all paths (name orders) and hash iteration orders of one coincidence pattern must yield the same observables
         groups = collections.defaultdict(list)
-        for (tn, ho, pi, pat), rec in rec_index.items(): groups[(tn, pat)].append((ho, pi, rec))
+        for (tn, ho, pi, pat), rec in cmp_index.items(): groups[(tn, pat)].append((ho, pi, rec))
         for (tn, pat), lst in groups.items():
             base = judge.observable_view(lst[0][2]); n_cmp += len(lst) - 1
             for ho, pi, rec in lst[1:]:
@@ -152,10 +156,10 @@ def run(prop, tier, seed=0, extra=None):
         for gname, ts in by_group.items():
             base_t = ts[0]
             for other in ts[1:]:
-                for (tn, ho, pi, pat), rec in rec_index.items():
+                for (tn, ho, pi, pat), rec in cmp_index.items():
                     if tn != other.name: continue
                     # the same pattern in the base template (names are shared between variants)
-                    for (tn2, ho2, pi2, pat2), rec2 in rec_index.items():
+                    for (tn2, ho2, pi2, pat2), rec2 in cmp_index.items():
                         if tn2 != base_t.name or pat2 != pat or ho2 != ho: continue
                         n_cmp += 1
                         d = order_diff(base_t, rec2, other, rec)
